@@ -1,6 +1,7 @@
 """C09 - requests are the protocol's, go to the right port, and echo challenges."""
 from valve_common import *
 from quake_common import quake_specs, quake_case
+from u2_common import u2_specs, u2_case
 
 ID = "C09"
 PROPS_FILE = "C09"
@@ -44,6 +45,10 @@ def gen_cases(tier, rng):
         evs = [None] * r.below(retries + 2) + [q["dg"]]
         cases.append({"id": "qreq/%d" % q["seed"], "hex": quake_case(port, q["ver"], {"retries": retries}, evs),
                       "meta": {"stream": "quake-requests", "quake": q["ver"], "port": port, "events": [], "tags": {}}})
+    for u in u2_specs([rng.next() >> 1 for _ in range(150 if tier == "quick" else 3000)], (1, 2)):
+        port = r.choice([7778, 7787, 1, 65535])
+        cases.append({"id": "ureq/%d" % u["seed"], "hex": u2_case(port, r.choice([None, (1, 2), (2, 2), (0, 2), (1, 0)]), {"retries": r.below(3)}, u["events"]),
+                      "meta": {"stream": "unreal2-requests", "unreal2": True, "port": port, "events": [], "tags": {}}})
     return cases
 
 
@@ -51,6 +56,14 @@ QUAKE_REQ = {1: "ffffffff73746174757300", 2: "ffffffff73746174757300", 3: "fffff
 
 
 def oracle(case, impl, side):
+    if "unreal2" in case["meta"]:
+        res, trace = split_result(impl)
+        for t in (trace or "").split(";"):
+            if t.startswith("S"):
+                p, _, d = t[1:].partition(":")
+                if int(p) != case["meta"]["port"] or d not in ("7900000000", "7900000001", "7900000002"):
+                    return ("unreal2-request", "unreal2 sent %s to port %s" % (d[:60], p))
+        return None
     if "quake" in case["meta"]:
         res, trace = split_result(impl)
         for t in (trace or "").split(";"):
@@ -70,10 +83,10 @@ def oracle(case, impl, side):
 
 
 def nontrivial(case, model):
-    if "quake" in case["meta"]:
+    if "quake" in case["meta"] or "unreal2" in case["meta"]:
         return True
     return any(e is not None and e.startswith("ffffffff41") for e in case["meta"]["events"])
 
 
 def extra_runs(tier, rng, ctx):
-    return [], {"uncovered_protocols": ["gamespy 1/2/3", "unreal2", "minecraft", "mindustry", "savage2", "ffow", "definitions table ports"]}
+    return [], {"uncovered_protocols": ["gamespy 1/2/3", "minecraft", "mindustry", "savage2", "ffow", "definitions table ports"]}
